@@ -621,6 +621,23 @@ pub fn child_main(property: &str, stream: &Stream, tier: Tier, seed: u64, shard:
     let _ = writeln!(l, "{s}");
 }
 
+/// Address-space limit of the main process (all worker threads together): an allocation blow-up
+/// in the tested code aborts this process instead of exhausting the machine.
+pub fn set_main_limits() {
+    unsafe {
+        let lim = libc::rlimit {
+            rlim_cur: 40 << 30,
+            rlim_max: 40 << 30,
+        };
+        libc::setrlimit(libc::RLIMIT_AS, &lim);
+        let z = libc::rlimit {
+            rlim_cur: 0,
+            rlim_max: 0,
+        };
+        libc::setrlimit(libc::RLIMIT_CORE, &z);
+    }
+}
+
 pub fn set_child_limits() {
     // 8 GiB address space: an allocation blow-up ends the child, not the machine
     unsafe {
